@@ -75,3 +75,9 @@ def run(ctx):
     from .. import numeric
     _run(ctx)
     numeric.arith_base(ctx, "C06.B1")
+    # "commission rate c" of the statement is the pair's one rate: the copy the swap reads is written only at instantiation,
+    # from the same field as the copy the pair reports (a migration / update that rewrites one copy changes c for swaps only)
+    from .. import compose
+    from . import c12
+    w2 = ctx.inst("C06.W2", "the commission rate the swap prices with is the rate the pair was created with: both stored copies are written only at instantiation from one message field (shared with C12.R2)", floor=2)
+    compose.pull(ctx, w2, c12, {"C12.R2"}, "C06.W2")
